@@ -30,6 +30,9 @@ ABSTRACTED = ['Worker._start: abstract hook (havoc of self._dead)', 'get_hostnam
 W = 'pyworkers.worker.Worker'
 
 MUTANTS = [
+    ('pyworkers/worker.py', "        with Worker._children_lock:\n            Worker._active_children = [child for child in Worker._active_children if child.is_alive()]\n            cpy = copy.copy(Worker._active_children)\n",
+     "        with Worker._children_lock:\n            cpy = copy.copy(Worker._active_children)\n        cpy = [child for child in cpy if child.is_alive()]\n        with Worker._children_lock:\n            Worker._active_children = cpy\n",
+     'prune split into two critical sections: a registration in between is lost'),
     ('pyworkers/worker.py', "if child.is_alive()]", "if not child.is_alive()]", 'keeps the dead workers instead of the live ones'),
     ('pyworkers/worker.py', "            cpy = copy.copy(Worker._active_children)\n", "            cpy = copy.copy(Worker._active_children)\n            Worker._active_children = []\n", 'registry emptied by every call'),
     ('pyworkers/worker.py', "            if not self._dead and not _is_restart:\n", "            if not _is_restart:\n", 'registers workers whose start failed'),
@@ -94,6 +97,20 @@ def build(ex):
         env['Worker'] = VClass(wci)
         env['lock'] = lock
 
+        ex_.ghost['reg_at_acquire'] = ex_.heap[reg.addr].seq
+
+        def on_acquire(ex2, lk):
+            # rely: while the lock was free other threads may have registered workers (register_child appends under the lock);
+            # nothing else touches the registry outside this module
+            cur = ex2.class_attrs[(W, '_active_children')]
+            h = ex2.heap[cur.addr]
+            others = ex2.fresh('registered_by_others', SeqVal)
+            new = z3.Concat(h.seq, others)
+            ex2.interp.fact_concat(new, [h.seq, others])
+            h.seq = new
+            ex2.ghost['reg_at_acquire'] = new
+        ex_.ghost['__on_acquire__'] = on_acquire
+
         def hook(interp, key, mode):
             if key == (W, '_active_children'):
                 held = ex_.abs_classes['Lock'].get(ex_, lock, 'held')
@@ -117,9 +134,9 @@ def build(ex):
         W + '.active_children', lid='L1',
         name='C19.L1 active_children yields exactly the live registered workers and drops the dead ones from the registry',
         setup=lambda ex_, env: registry_setup(ex_, env),
-        ensures=['cnt(e0, Worker._active_children) == (cnt(e0, old(Worker._active_children)) if alive(e0) else 0)',
-                 'cnt(e0, result) == (cnt(e0, old(Worker._active_children)) if alive(e0) else 0)',
-                 'len(result) <= len(old(Worker._active_children))'],
+        ensures=['cnt(e0, Worker._active_children) == (cnt(e0, reg_at_acquire) if alive(e0) else 0)',
+                 'cnt(e0, result) == (cnt(e0, reg_at_acquire) if alive(e0) else 0)',
+                 'len(result) <= len(reg_at_acquire)'],
         all_exits=['not lock.held'],
         raises={}, raises_only=[])
 
@@ -128,7 +145,7 @@ def build(ex):
         W + '.register_child', lid='L2a', name='C19.L2a register_child appends the worker exactly once, under the lock',
         params={'child': ('abs', 'AWorker')},
         setup=lambda ex_, env: registry_setup(ex_, env),
-        ensures=['Worker._active_children == old(Worker._active_children) + (child,)'],
+        ensures=['Worker._active_children == reg_at_acquire + (child,)'],
         all_exits=['not lock.held'],
         raises={}, raises_only=[])
 
@@ -157,7 +174,7 @@ def build(ex):
         live = z3.And(started, z3.Not(dead), z3.Not(c.env['_is_restart'].e))
         me = c.env['me'].t
         now = ex_.heap[ex_.class_attrs[(W, '_active_children')].addr].seq
-        before = ex_.old['heap'][ex_.old['class_attrs'][(W, '_active_children')].addr].seq
+        before = ex_.ghost['reg_at_acquire']       # the registry as of the last lock acquisition (other threads may register meanwhile)
         return cnt_f(me, now) == cnt_f(me, before) + z3.If(live, 1, 0)
     registered_iff_live.__doc__ = 'the new worker occurs once more in the registry iff its construction ended with a live child and it is not a restart'
 
@@ -168,7 +185,7 @@ def build(ex):
                 'userid': 'any', 'run': 'any', 'set_names': 'bool', 'init_state': 'any', '_is_restart': 'bool'},
         setup=init_setup,
         ensures=[registered_iff_live,
-                 'cnt(e0, Worker._active_children) == cnt(e0, old(Worker._active_children)) or e0 == me',
+                 'cnt(e0, Worker._active_children) >= cnt(e0, old(Worker._active_children))',
                  'implies(not self._started, self._result == (True, None))'],
         all_exits=['not lock.held'],
         raises={'ValueError': None}, raises_only=['ValueError'])
